@@ -501,7 +501,10 @@ pub fn patch(
             .chain(&target.blending[1..])
             .enumerate()
         {
-            let base_grid_region = base_grid.regions_and_shifts()[idx].0;
+            // Patches are applied before the frame is upsampled: the region is labelled in
+            // upsampled coordinates, the buffer (and the patch position) is in coded resolution.
+            let (base_region, base_shift) = base_grid.regions_and_shifts()[idx];
+            let base_grid_region = base_region.downsample_with_shift(base_shift);
             let ref_grid_region = patch_ref_grid.regions_and_shifts()[idx].0;
 
             let target_patch_region = base_grid_region.intersection(Region {
